@@ -1,8 +1,9 @@
 """python -m vt.keepseed <ID> <tag> "<detected-by note>"  : file a confirmed seeded change under /verif/seeded/<tag>/"""
 import json, os, shutil, sys
 HERE = os.path.dirname(os.path.dirname(os.path.abspath(__file__)))
-pid, tag, note = sys.argv[1], sys.argv[2], sys.argv[3]
-src = "/tmp/seed-%s" % pid
+sid, tag, note = sys.argv[1], sys.argv[2], sys.argv[3]
+pid = sid.rstrip("abcdefghijklmnopqrstuvwxyz")
+src = "/tmp/seed-%s" % sid
 dst = os.path.join(HERE, "seeded", tag)
 os.makedirs(dst, exist_ok=True)
 for fn in ("patch.diff", "demo.py"):
